@@ -2,7 +2,7 @@
 """wtrun.py <patch.diff|-> <name> <checks...>: applies a change in a scratch worktree of /repo (never in /repo itself), points the harness
 at it through RULER_SRC, runs the named checks and prints what they reported.  With VERIF_DIR=<copy of /verif> the checks of that copy are
 used (parallel workers).  When the patch is /verif/seeded/<id>/patch.diff the result is recorded in /verif/seeded/<id>/result.json.
-Note: C10 (real-file-system part) and C19 use the `ruler_real` binary built from /repo itself, so they need lib/seedrun.py."""
+For the checks that drive the real command-line tool the binary is built from the scratch worktree too (RULER_REAL_BIN)."""
 import sys, os, subprocess, re, json, time
 patch, name, props = sys.argv[1], sys.argv[2], sys.argv[3:]
 vdir = os.environ.get('VERIF_DIR', '/verif')
@@ -15,9 +15,16 @@ if sh('git -C /repo worktree add -q --detach %s HEAD' % wt).returncode != 0: pri
 res = {}
 try:
     if patch != '-' and sh('git -C %s apply %s' % (wt, patch)).returncode != 0: print('patch does not apply'); sys.exit(2)
+    env = {'RULER_SRC': wt + '/src'}
+    if any(p in ('C01', 'C02', 'C04', 'C08', 'C09', 'C10', 'C19') for p in props):
+        # these checks also drive the real command-line tool: build it from the scratch worktree (shared dependency build)
+        tdir = os.environ.get('WT_TARGET', '/tmp/wt/target_shared')
+        b = sh('cd %s && CARGO_TARGET_DIR=%s cargo build --release --offline -q' % (wt, tdir))
+        if b.returncode != 0: print('real binary does not build:', b.stdout[-500:]); sys.exit(2)
+        env['RULER_REAL_BIN'] = tdir + '/release/ruler'
     for p in props:
         t0 = time.time()
-        r = sh('cd %s && ./check %s' % (vdir, p), env={'RULER_SRC': wt + '/src'})
+        r = sh('cd %s && ./check %s' % (vdir, p), env=env)
         lines = [l for l in r.stdout.split('\n') if re.match(r'VIOLATION|DIVERGENCE|TOOL-ERROR|KNOWN', l)]
         v = sorted(set(re.sub(r'replay=\S+', '', l) for l in lines if l.startswith('VIOLATION')))[:6]
         res[p] = {'exit': r.returncode, 'wall_s': round(time.time() - t0), 'violations': v, 'divergences': len([l for l in lines if l.startswith('DIVERGENCE')]),
